@@ -213,6 +213,11 @@ class SSHLocalForwarder(SSHForwarder):
 
         assert self._peer is not None
 
+        if not self._transport:
+            # This side was closed while the channel open was pending
+            self.close()
+            return
+
         if self._inpbuf:
             self._peer.write(self._inpbuf)
             self._inpbuf = b''
